@@ -33,7 +33,7 @@ def case_f(xs, q, lay="c"):
 
 def generate(rng, tier):
     cases = []
-    reps = 60 if tier == "quick" else 1500
+    reps = gen.N(tier, 60, 1500)
     for _ in range(reps):
         n = rng.choice([2, 2, 3, 3, 4, 5, 6, 8, 13, 21, 40])
         xs = gen.axis_q(rng, n)
